@@ -197,6 +197,9 @@ struct Lifter<'a> {
     /// the `&mut` parameter returned by a `()` function, if any
     out_param: Option<String>,
     observe: Option<String>,
+    /// observables shared with the main function: binding name -> opaque spec fn to call instead of inlining
+    shared: HashMap<String, String>,
+    rebound_params: Vec<String>,
     /// > 0 while lifting a block in value position (closure bodies, branch values)
     in_value: usize,
 }
@@ -835,6 +838,21 @@ impl<'a> Lifter<'a> {
                     }
                     p => self.pattern(p, &ty)?,
                 };
+                if self.params.iter().any(|(n, _)| *n == pat) {
+                    self.rebound_params.push(pat.clone());
+                }
+                if self.observe.is_none() {
+                    if let Some(fname) = self.shared.get(&pat).cloned() {
+                        // the main function shares this binding with its (opaque) observable: one atom for the solver
+                        if !self.rebound_params.is_empty() && self.rebound_params.iter().any(|p| *p != pat) {
+                            return Err(format!("construct outside rule list (lift): shared observable `{pat}` after a parameter was rebound"));
+                        }
+                        let args: Vec<String> = self.params.iter().map(|(n, _)| n.clone()).collect();
+                        self.bind(&pat, &ty);
+                        let r = self.rest(rest, cont)?;
+                        return Ok(v(format!("{{ let {pat} = crate::{fname}({}); {} }}", args.join(", "), r.text), &r.ty));
+                    }
+                }
                 if let Some(obs) = self.observe.clone() {
                     if pat == obs {
                         // L17: observable — the value of this binding is the result
@@ -1656,6 +1674,8 @@ pub fn lift_fn(ctx: &mut Ctx, blk: &Block) -> Result<(String, Value), String> {
             hoist: vec![],
             out_param: out_param.clone(),
             observe: observe.clone(),
+            shared: if blk.flag("share_observed") { outputs.iter().filter_map(|(n, o)| o.clone().map(|o| (o, n.clone()))).collect() } else { HashMap::new() },
+            rebound_params: vec![],
             in_value: 0,
         };
         let body = l.stmts_with_cont(&f.block.stmts, None)?;
@@ -1672,7 +1692,8 @@ pub fn lift_fn(ctx: &mut Ctx, blk: &Block) -> Result<(String, Value), String> {
             notes_all = l.notes.clone();
         }
         let ps: Vec<String> = params.iter().map(|(n, t)| format!("{n}: {t}")).collect();
-        text.push_str(&format!("pub open spec fn {oname}({}) -> {rty} {{\n    {}\n}}\n", ps.join(", "), body.text));
+        let opaque = if observe.is_some() && blk.flag("share_observed") { "#[verifier::opaque]\n" } else { "" };
+        text.push_str(&format!("{opaque}pub open spec fn {oname}({}) -> {rty} {{\n    {}\n}}\n", ps.join(", "), body.text));
         result_tys.push((oname.clone(), rty));
     }
     let text = format!("{}{}{}", havocs_all.join("\n"), if havocs_all.is_empty() { "" } else { "\n" }, text);
